@@ -27,6 +27,9 @@ pub fn check_output_more(t: &TaskCtx, out: &str, oi: &Info, st: &mut Stats, f: &
     if t.oracles & O_SORT != 0 {
         c12_oracle(t, oi, st, f);
     }
+    if t.oracles & O_WS != 0 {
+        c10_oracle(t, out, oi, st, f);
+    }
 }
 
 // ---------------------------------------------------------------------------------------------------- C08
@@ -59,6 +62,89 @@ fn c08_oracle(t: &TaskCtx, out: &str, st: &mut Stats, f: &mut Vec<(String, Strin
                         }
                     }
                 }
+            }
+        }
+    }
+}
+
+// ---------------------------------------------------------------------------------------------------- C10
+fn c10_oracle(t: &TaskCtx, out: &str, oi: &Info, st: &mut Stats, f: &mut Vec<(String, String)>) {
+    let Some(lexed) = &oi.lexed else { return };
+    *st.oracle_evals.entry("whitespace").or_insert(0) += 1;
+    let b = out.as_bytes();
+    // mask: bytes inside string literal tokens; comment interiors are remembered separately
+    let mut in_str = vec![false; b.len()];
+    for (tok, a, e) in &lexed.toks {
+        if matches!(tok, crate::lex::Tok::Str { .. } | crate::lex::Tok::LongStr { .. } | crate::lex::Tok::Interp(_)) {
+            for x in in_str[*a..*e].iter_mut() {
+                *x = true;
+            }
+        }
+    }
+    let mut in_comment = vec![false; b.len()];
+    for (c, a, e) in &lexed.comments {
+        if matches!(c, crate::lex::Comment::Block { .. }) {
+            for x in in_comment[(*a + 1).min(*e)..*e].iter_mut() {
+                *x = true;
+            }
+        }
+    }
+    let windows = t.cfg.le == 1;
+    for i in 0..b.len() {
+        if in_str[i] {
+            continue;
+        }
+        if b[i] == b'\n' {
+            let crlf = i > 0 && b[i - 1] == b'\r';
+            if windows && !crlf {
+                f.push(("line-ending".into(), format!("bare LF at byte {} although line_endings = Windows", i)));
+                return;
+            }
+            if !windows && crlf {
+                f.push(("line-ending".into(), format!("CRLF at byte {} although line_endings = Unix", i)));
+                return;
+            }
+        } else if b[i] == b'\r' && b.get(i + 1) != Some(&b'\n') {
+            f.push(("line-ending".into(), format!("lone carriage return at byte {}", i)));
+            return;
+        } else if b[i] == b'\r' && windows && i > 0 && b[i - 1] == b'\r' {
+            f.push(("line-ending".into(), format!("doubled carriage return at byte {}", i)));
+            return;
+        }
+    }
+    // leading whitespace of every line that starts outside strings and comment interiors
+    let mut p = 0;
+    while p < b.len() {
+        if !in_str[p] && !in_comment[p] {
+            let mut q = p;
+            while q < b.len() && (b[q] == b' ' || b[q] == b'\t') {
+                q += 1;
+            }
+            let ws = &b[p..q];
+            let blank = q >= b.len() || b[q] == b'\n' || b[q] == b'\r';
+            if !blank || !ws.is_empty() {
+                let ok = if t.cfg.it == 0 { ws.iter().all(|c| *c == b'\t') } else { ws.iter().all(|c| *c == b' ') && ws.len() % t.cfg.iw == 0 };
+                if !ok {
+                    f.push(("indentation".into(), format!("line starting at byte {} is indented with {:?}", p, String::from_utf8_lossy(ws))));
+                    return;
+                }
+            }
+        }
+        match b[p..].iter().position(|c| *c == b'\n') {
+            Some(k) => p += k + 1,
+            None => break,
+        }
+    }
+    // end of file (only when the end of the file is formatted, i.e. no range)
+    if t.range.is_none() && !out.is_empty() {
+        let le = if windows { "\r\n" } else { "\n" };
+        if !out.ends_with(le) {
+            f.push(("eof".into(), "non-empty output does not end with the configured line ending".into()));
+        } else {
+            let body = &out[..out.len() - le.len()];
+            if body.ends_with('\n') || body.ends_with('\r') {
+                // a string / comment ending the file with its own line break cannot occur: tokens end before it
+                f.push(("eof".into(), "output ends with more than one line ending".into()));
             }
         }
     }
@@ -606,6 +692,48 @@ pub fn plans_for(prop: &str, thorough: bool) -> Vec<Plan> {
                 widths: Widths::Wide,
                 ranges: Ranges::TokenPoints,
                 oracles: O_RANGE,
+                u_cap: 400,
+            });
+        }
+        "C10" => {
+            let mut bases: Vec<Case> = stmt.clone();
+            bases.extend(stmt_long.clone());
+            let tri = trivia_family(&only_dials(stmt.clone(), &[Dial::Core]), if thorough { &[0, 1, 3, 5, 6] } else { &[3, 5] });
+            let mut ws: Vec<Case> = gen::f_ws_files();
+            for b in bases.iter() {
+                ws.extend(gen::ws_variants(b, thorough));
+            }
+            for (i, b) in tri.iter().enumerate() {
+                if thorough || i % 5 == 0 {
+                    ws.extend(gen::ws_variants(b, false).into_iter().take(if thorough { 20 } else { 2 }));
+                }
+            }
+            let opts = move |b: Cfg| {
+                let mut v = vec![];
+                for le in 0..2u8 {
+                    v.push(Cfg { le, it: 0, ..b });
+                    for iw in if thorough { vec![1usize, 2, 3, 4, 8] } else { vec![2usize, 3] } {
+                        v.push(Cfg { le, it: 1, iw, ..b });
+                    }
+                }
+                v
+            };
+            plans.push(Plan {
+                name: "F-STMT / F-STMT-L / F-TRIVIA as written x line_endings x indent_type x indent_width x all widths",
+                cases: { let mut c = bases.clone(); c.extend(tri.clone()); c },
+                cfgs: cross(false, opts.clone()),
+                widths: Widths::All,
+                ranges: Ranges::None,
+                oracles: O_WS,
+                u_cap: 400,
+            });
+            plans.push(Plan {
+                name: "F-WS renderings (CRLF, mixed, space indentation, EOF variants) x line_endings x indent x width classes",
+                cases: ws,
+                cfgs: cross(false, opts),
+                widths: Widths::Classes,
+                ranges: Ranges::None,
+                oracles: O_WS,
                 u_cap: 400,
             });
         }
